@@ -8,7 +8,8 @@ PROOF_MODULES = ["GrpcProofs.Properties.C43"]
 THEOREMS = ["GrpcProofs.C43." + t for t in (
     "changed_only_with_accepted", "no_duplicate_changed_unless_nack_intervened",
     "ambient_iff_cached_and_rejected_or_stream_failed", "resource_error_iff_no_valid", "error_kind_matches_cache",
-    "rejected_duplicate_already_reported", "new_watcher_gets_cache_and_error_state", "last_unwatch_unsubscribes",
+    "rejected_duplicate_already_reported", "failed_watch_reports_error", "new_watcher_gets_cache_and_error_state",
+    "last_unwatch_unsubscribes", "last_unwatch_unsubscribes_before_release", "chanUnsub_forgets",
     "unsubscribed_when_no_watchers")]
 DESIGN_REF = "DESIGN.md section 8, C43"
 TECHNIQUE = ("Lean 4 theorems about a statement-by-statement port of the authority's serializer callbacks (authority.go), for all "
@@ -31,20 +32,33 @@ LEVEL_NOTE = ("Reading (DESIGN section 7): a rejection whose error string equals
               "synctest quiescence; the scripted transport/decoder of the harness (pacing: one transport call granted at a time, lowest "
               "server first); protobuf (un)marshalling. Layer B of the model (channels, timers, pump) is tied by the correspondence only, "
               "the theorems are about layer A (the authority) for arbitrary event sequences, a superset of what layer B produces. "
-              "Observation (not a listed clause, reproduced on the real code by the generator): a resource first watched while a fallback "
+              "The client of the harness has two authorities (top-level and `b`, same server list) that share ref-counted xdsChannels, so the "
+              "last unwatch of one authority while the other still watches leaves the channel open: the unsubscribe must still reach it "
+              "(theorems last_unwatch_unsubscribes_before_release / chanUnsub_forgets, monitor: every live server is asked for exactly the "
+              "resources subscribed on it; seeded change C43-seed11). Transport-creation faults (op nobuild) are part of the histories; a "
+              "watch that cannot even create its first channel is characterised by failed_watch_reports_error and excluded (hns) from the "
+              "two iff theorems. Observation (not a listed clause, reproduced on the real code by the generator): a resource first watched while a fallback "
               "server is active is subscribed only there; on revert to the primary it is unsubscribed and never subscribed on the primary "
               "(res entry with ch=-).")
 GAP = ("order of callbacks of different watchers inside one quiescence step (compared per watcher); real gRPC transport; wall-clock; "
-       "multi-authority channel sharing")
+       "more than two authorities / authorities with different server lists")
 ASSUMPTIONS = ["every watch registers a watcher object that is not currently registered", "decoder errors are compared by their string",
                "the backoff function is the constant 1 s and the watch expiry 2505 ms passed by the harness"]
 RULE = ("30% directed skeletons (accept/reject/re-accept, SotW removal with and without ignore_resource_deletion, watch expiry incl. a cached resource expiring on a fallback server, rejected-with-nothing-cached, stream failures before/after the first response, last watcher leaves) followed by a random tail; 70% random histories (6-70 events) for 1-3 servers with random ignore_resource_deletion bits: watch/unwatch of 3 names over 2 types "
         "(one with AllResourcesRequiredInSotW) + an unknown type, responses from any server with valid / invalid / nameless resources and "
         "fresh or repeated versions, stream breaks, servers going down/up, sleeps around the 1 s backoff and the 2505 ms watch expiry, "
-        "hold/release of the authority's serializer (events queue up and are processed in order), close. Non-trivial: at least 3 ops "
+        "hold/release of the top-level authority's serializer (events queue up and are processed in order), transport-creation faults "
+        "(nobuild), close. About 30% of the watches go to a second authority `b` (xdstp://b/...) that has the same server list, so the two "
+        "authorities share (ref-counted) xdsChannels: directed skeletons cancel the last watch of one authority while the other still "
+        "watches, and let both fall back and revert. Non-trivial: at least 3 ops "
         "with watcher callbacks; distinct = distinct op list")
 
 NAMES = ["r1", "r2", "r3"]
+BNAMES = ["b_r1", "b_r2"]      # resources of the second authority "b" (xdstp://b/...), which shares the servers
+
+
+def pick_name(rng, pb=0.3):
+    return rng.choice(BNAMES) if rng.random() < pb else rng.choice(NAMES)
 CONTENTS = ["c1", "c2", "c3"]
 TAGS = ["e1", "e2"]
 SLEEPS = [10, 500, 1000, 1000, 1500, 2000, 2510, 3000]
@@ -53,7 +67,7 @@ SLEEPS = [10, 500, 1000, 1000, 1500, 2000, 2510, 3000]
 def gen_entries(rng):
     k = rng.choice([0, 1, 1, 1, 2, 2, 3])
     es = []
-    for n in rng.sample(NAMES, k):
+    for n in rng.sample(NAMES + BNAMES, k):
         r = rng.random()
         if r < 0.68:
             es.append("%s:ok:%s" % (n, rng.choice(CONTENTS)))
@@ -64,8 +78,9 @@ def gen_entries(rng):
     return ",".join(es) or "-"
 
 
-def gen_ops(rng, ln, n, allow_hold=True, weights=None):
-    """A random history for an n-server client. Returns the op list (without cfg)."""
+def gen_ops(rng, ln, n, allow_hold=True, weights=None, pb=0.3, pnobuild=0.03):
+    """A random history for an n-server client. Returns the op list (without cfg).
+    pb: share of watches that go to the second authority; pnobuild: rate of transport-creation faults."""
     ops = []
     ver = 0
     active = []          # watcher ids believed registered
@@ -76,11 +91,14 @@ def gen_ops(rng, ln, n, allow_hold=True, weights=None):
             ops.append("down %d" % s)
     if rng.random() < 0.7:
         for _ in range(rng.randrange(1, 4)):
-            ops.append("watch %s %s %d" % ("T" if rng.random() < 0.8 else "U", rng.choice(NAMES), nextw))
+            ops.append("watch %s %s %d" % ("T" if rng.random() < 0.8 else "U", pick_name(rng, pb), nextw))
             active.append(nextw)
             nextw += 1
     for _ in range(ln):
         r = rng.random()
+        if rng.random() < pnobuild:
+            k = rng.choice([0, 0, 1, 1, 1, 2])
+            ops.append("nobuild %s" % ("+".join(str(x) for x in sorted(rng.sample(range(n), min(k, n)))) or "-"))
         if r < 0.20:
             t = "T" if rng.random() < 0.8 else "U"
             if rng.random() < 0.03:
@@ -92,7 +110,7 @@ def gen_ops(rng, ln, n, allow_hold=True, weights=None):
                 nextw += 1
                 if t != "X" and not held:
                     active.append(w)
-            ops.append("watch %s %s %d" % (t, rng.choice(NAMES), w))
+            ops.append("watch %s %s %d" % (t, pick_name(rng, pb), w))
         elif r < 0.30:
             if active and rng.random() < 0.95:
                 w = rng.choice(active)
@@ -132,8 +150,21 @@ def gen_ops(rng, ln, n, allow_hold=True, weights=None):
 
 def directed(rng, n):
     """Skeletons for the rarer clauses; a random tail follows."""
-    k = rng.randrange(6)
+    k = rng.randrange(8)
     c = rng.choice(CONTENTS)
+    if k == 6:      # two authorities share the channel: the last watch of one goes away, the other keeps watching
+        a, b = ("r1", "b_r1") if rng.random() < 0.5 else ("b_r2", "r2")
+        ops = ["watch T %s 1" % a, "watch T %s 2" % b, "respond 0 T v1 %s:ok:%s,%s:ok:c2" % (a, c, b)]
+        if rng.random() < 0.5:
+            ops += ["watch U %s 3" % a, "unwatch 3"]
+        ops += ["unwatch 1", "respond 0 T v2 %s:ok:c3" % b, "watch T %s 4" % a, "unwatch 2", "unwatch 4"]
+        return ops
+    if k == 7:      # both authorities fall back and revert on the shared channels
+        ops = ["down 0", "watch T r1 1", "watch T b_r1 2"]
+        if n > 1:
+            ops += ["respond 1 T v1 r1:ok:%s,b_r1:ok:c2" % c]
+        ops += ["up 0", "sleep 1000", "respond 0 T v2 r1:ok:%s" % c, "unwatch 1", "respond 0 T v3 b_r1:ok:c1", "unwatch 2"]
+        return ops
     if k == 0:      # accept, reject twice with the same / another error, accept the same content again
         e1, e2 = rng.choice(TAGS), rng.choice(TAGS)
         return ["watch T r1 1", "respond 0 T v1 r1:ok:%s" % c, "respond 0 T v2 r1:bad:%s" % e1, "watch T r1 2",
